@@ -116,6 +116,9 @@ is `Option Error` (`nil` = `none`). -/
 inductive Error where
   | alert (a : BitVec 8)
   | other
+  /-- `io.EOF`, `io.ErrUnexpectedEOF` -/
+  | eof
+  | unexpectedEOF
 deriving Repr, DecidableEq
 
 /-- The record ciphers of the receive path, modelled by parameters (as `Extern` does for HMAC):
